@@ -361,6 +361,10 @@ func genModuleSetOpt(r *rng, wantConflicts int, crowd bool) *wlMerge {
 				plain = false
 			}
 		}
+		switch t.Name { // words the grammar reserves where a condition name stands
+		case "model", "schema", "module", "extend", "type", "relation", "relations", "define", "condition", "list", "map", "string", "int", "uint", "bool", "double", "duration", "timestamp", "ipaddress", "any", "and", "or", "from", "with":
+			plain = false
+		}
 		if !taken && plain {
 			f := files[r.intn(len(files))]
 			f.Conds = append(f.Conds, &Cond{Name: t.Name, Params: []Param{{Name: "x", Type: "string"}}, Expr: "x == \"1\""})
